@@ -42,7 +42,7 @@ CLAIMS = {
         "technique": "runtime monitoring: differential oracle against an independent reference renderer, panics caught",
     },
     "C12": {
-        "text": "Exploration with an exhaustive slice: '{msg:<align><W>[!]}' rendered through a real bar for W 0..=40 x 4 alignments x truncation on/off x 5 content classes (ascii, multi-byte 1-column, double-width, ANSI-coloured, combining marks) x shorter/exact/longer content (enumerated completely), then sampled widths up to 65535 and {wide_msg} lines on 1..120-column terminals; the field is measured in columns three independent ways (own ANSI stripper + unicode-width, console::measure_text_width, cursor column after feeding the text to VScreen) and compared with a column-based reference for padding side, kept range and exact width.",
+        "text": "Exploration with an exhaustive slice: '{msg:<align><W>[!]}' rendered through a real bar for W 0..=40 x 4 alignments x truncation on/off x 5 content classes (ascii, multi-byte 1-column, double-width, ANSI-coloured, combining marks) x shorter/exact/longer content (enumerated completely), then sampled widths up to 65535 and {wide_msg} lines on 1..120-column terminals; the field is measured in columns three independent ways (own ANSI stripper + unicode-width, console::measure_text_width, cursor column after feeding the text to VScreen) and compared with a column-based reference for padding side, kept range and exact width. Wide-neighbours lane: {wide_msg} next to padded fields whose widths add up to 0..140000 columns (around 255, 65535, 65536+w, 131072) on 4..65535-column terminals; the wide field must be exactly max(0, terminal - rest) columns.",
         "design_ref": "DESIGN.md §4 C12",
         "note": "Trusted: the column reference in harness/src/props/c12.rs and the unicode-width tables. Double-width content: W-1 columns are accepted where exactly W cannot be kept; combining marks are compared on base characters.",
         "technique": "runtime monitoring: differential oracle on rendered fields measured in terminal columns",
@@ -60,7 +60,7 @@ CLAIMS = {
         "technique": "runtime monitoring: exhaustive-slice + sampled differential oracle on rendered bar cells",
     },
     "C14": {
-        "text": "Exploration: sequences of 1-3 builder calls with boundary arguments (0/1/2/3/30 tick characters, 0/1/2/3/8 tick strings incl. empty ones, 0..10 progress clusters of equal/mixed/zero width, with_key, template); a panic inside the builder call is the accepted explicit rejection; every accepted style is asked for tick strings at tick values up to u64::MAX and drawn for 6 bar states x 4 terminal widths in release and debug builds; any panic after acceptance is a violation.",
+        "text": "Exploration: sequences of 1-3 builder calls with boundary arguments (0/1/2/3/30 tick characters, 0/1/2/3/8 tick strings incl. empty ones, 0..10 progress clusters of equal/mixed/zero width, with_key, template); a panic inside the builder call is the accepted explicit rejection; every accepted style is asked for tick strings at tick values up to u64::MAX and drawn for 6 bar states x 4 terminal widths in release and debug builds; any panic after acceptance is a violation. A render that allocates without bound is reported by the resource watchdog as resource-blowup [memory].",
         "design_ref": "DESIGN.md §4 C14",
         "note": "Tick counts beyond a few dozen are reached through the public ProgressStyle::get_tick_str(idx), not by ticking 2^32 times.",
         "technique": "runtime monitoring: panic monitor separating build-time rejection from draw-time panics",
@@ -84,13 +84,13 @@ CLAIMS = {
         "technique": "runtime monitoring: algebraic/metamorphic trace laws over getter values on a virtual clock",
     },
     "C11": {
-        "text": "Exploration: a bar whose template holds every documented non-bar key (26), a custom ProgressTracker key and an unknown key on separate lines goes through 1-25 updates (positions incl. u64 extremes and pos > len, known/zero/unknown length, texts, ticks, reset, abandon; virtual time from 1 ms to days between operations) and is drawn once on a spy terminal; each raw line is compared with the getter read at the same frozen virtual instant passed through the public formatter (percent: either neighbour within f32 noise; spinner: tick string at the model's tick count, final string once finished); the custom tracker's tick/reset/write calls are logged and compared with the bar's state.",
+        "text": "Exploration: a bar whose template holds every documented non-bar key (26), a custom ProgressTracker key and an unknown key on separate lines goes through 1-25 updates (positions incl. u64 extremes and pos > len, known/zero/unknown length, texts, ticks, reset, abandon; virtual time from 1 ms to days between operations) and is drawn once on a spy terminal; each raw line is compared with the getter read at the same frozen virtual instant passed through the public formatter (percent: either neighbour within f32 noise; spinner: tick string at the model's tick count, final string once finished); the custom tracker's tick/reset/write calls are logged and compared with the bar's state. Mid-draw lane: a custom key between 2-8 keys of the pos/len family lets a helper thread run inc/dec/set_position (lock-free) while the frame is being rendered; the frame must still describe one single position (with an unknown length, len = that position).",
         "design_ref": "DESIGN.md §4 C11",
         "note": "The formatters themselves are C15's business; here they are the yardstick. {bar}/{wide_bar} are C13's. Tick counts beyond a few dozen are not reachable through the public API.",
         "technique": "runtime monitoring: per-key differential oracle (rendered text vs getters at a frozen virtual instant)",
     },
     "C16": {
-        "text": "Exploration: builder calls (with_tab_width/with_style/with_message/with_prefix) in random order, then 1-6 of set_tab_width/set_style/set_message/set_prefix and a finishing message (explicit or through finish-on-drop behaviour), tab widths {0,1,2,8,13}, texts with up to 10 tabs, tabs in template literals and custom-key output, standalone and inside a MultiProgress; after every operation every string handed to write_str/write_line is scanned for TAB bytes, the forced frame must equal the model with every tab replaced by current-tab-width spaces, and message()/prefix() must return the expanded text.",
+        "text": "Exploration: builder calls (with_tab_width/with_style/with_message/with_prefix) in random order, then 1-6 of set_tab_width/set_style/set_message/set_prefix and a finishing message (explicit or through finish-on-drop behaviour), tab widths {0,1,2,8,13}, texts with up to 10 tabs, tabs in template literals and custom-key output, standalone and inside a MultiProgress; after every operation every string handed to write_str/write_line is scanned for TAB bytes, the forced frame must equal the model with every tab replaced by current-tab-width spaces, and message()/prefix() must return the expanded text. Concurrent lane: set_message/set_prefix/finish_with_message with a text whose Into<Cow<str>> conversion lets a second thread run set_tab_width inside the call; afterwards message()/prefix() and the frame must be expanded with the new width.",
         "design_ref": "DESIGN.md §4 C16",
         "note": "println texts contain no tabs here: the statement is about bar lines.",
         "technique": "runtime monitoring: byte scan of the terminal call log + model comparison after every operation",
@@ -102,13 +102,13 @@ CLAIMS = {
         "technique": "runtime monitoring: silence monitor (terminal call counter / pipe byte count) + lock-step twin comparison",
     },
     "C18": {
-        "text": "Fault enumeration: every base history (single-bar and MultiProgress alphabets incl. set_tab_width, suspend, println, finish, drop) is run fault-free to count its n terminal calls and then re-run for every k in 1..=n twice - only call k fails / call k and all later calls fail (exhaustive in k up to 400 calls); each faulty run is followed by a probe battery on every bar (tick, set_message, inc, println, suspend, set_tab_width, set_length, force_draw, clone+drop, finish), on the MultiProgress (println, clear, suspend) and by dropping everything; monitors: no panic anywhere (release and debug builds), io::Result-returning calls report an error that occurred inside them, getters equal the fault-free model.",
+        "text": "Fault enumeration: every base history (single-bar and MultiProgress alphabets incl. set_tab_width, suspend, println, finish, drop) is run fault-free to count its n terminal calls and then re-run for every k in 1..=n twice - only call k fails / call k and all later calls fail (exhaustive in k up to 400 calls); each faulty run is followed by a probe battery on every bar (tick, set_message, inc, println, suspend, set_tab_width, set_length, force_draw, clone+drop, finish), on the MultiProgress (println, clear, suspend) and by dropping everything; monitors: no panic anywhere (release and debug builds), io::Result-returning calls report an error that occurred inside them, getters equal the fault-free model. Half of the MultiProgress worlds run with set_move_cursor(true).",
         "design_ref": "DESIGN.md §4 C18",
         "note": "The fault index k is enumerated completely per history; the histories themselves are sampled. Faults are io::Error values returned by the spy terminal; partial writes are not modelled.",
         "technique": "runtime monitoring with fault injection at the TermLike boundary, exhaustive in the fault index",
     },
     "C17": {
-        "text": "Exploration by twin comparison: every call on a wrapped scripted source/sink is mirrored on an identical bare twin; items, bytes, return values and error kinds must agree and position() must move by exactly what the call transferred (seek: equal the returned offset). Families: Read (read, read_vectored, read_exact, read_to_end; short reads, Interrupted, hard errors, zero-length, EOF), BufRead (fill_buf / partial consume / read_line / read interleaved), Write (write, write_vectored, write_all, flush), Seek (three modes, rewind, stream_position), Iterator/DoubleEnded/ExactSize (size_hint validity, every ProgressFinish on exhaustion), tokio AsyncRead/AsyncBufRead/AsyncWrite/AsyncSeek and futures Stream polled by hand with scripted Pending (no runtime), rayon pipelines (for_each, map+collect, zip, enumerate, rev, chunks, with_min_len, with_max_len, unindexed filter) on pools of 1-16 threads with 0-20000 items incl. a probe that the bar is not finished while items are still being processed.",
+        "text": "Exploration by twin comparison: every call on a wrapped scripted source/sink is mirrored on an identical bare twin; items, bytes, return values and error kinds must agree and position() must move by exactly what the call transferred (seek: equal the returned offset). Families: Read (read, read_vectored, read_exact, read_to_end; short reads, Interrupted, hard errors, zero-length, EOF), BufRead (fill_buf / partial consume / read_line / read interleaved), Write (write, write_vectored, write_all, flush), Seek (three modes, rewind, stream_position), Iterator/DoubleEnded/ExactSize (size_hint validity, every ProgressFinish on exhaustion), tokio AsyncRead/AsyncBufRead/AsyncWrite/AsyncSeek and futures Stream polled by hand with scripted Pending (no runtime), rayon pipelines (for_each, map+collect, zip, enumerate, rev, chunks, with_min_len, with_max_len, unindexed filter) on pools of 1-16 threads with 0-20000 items incl. a probe that the bar is not finished while items are still being processed. Short-circuiting rayon consumers (find_any/first/last, any, all, position_any, try_for_each, while_some, take_any, try_reduce; indexed and unindexed sources): the position must equal the count of an upstream counting stage.",
         "design_ref": "DESIGN.md §4 C17",
         "note": "Separate binary vh-adapt (indicatif features rayon, tokio, futures). Erroring calls of the all-or-nothing std methods (read_exact, read_to_end) are exempt from the byte law. Rayon interleavings are whatever the pool produces.",
         "technique": "runtime monitoring: twin (differential) comparison at the adaptor boundary + conservation of the count",
